@@ -8,11 +8,6 @@ import GJS.Props.FlatGen
 namespace GJS.Props.Tree
 open GJS GJS.Props.Flat
 
-def isArr (p : Schema) : Bool := p.node.types == ["array"]
-
-/-- the schema of an array member's items (the empty schema if there is none) -/
-def itemsOf (p : Schema) : Schema := p.node.items.getD default
-
 /-- an array of scalars as a member: `items` is a plain scalar, item counts allowed, nothing else -/
 def ArrProp (p : Schema) : Prop :=
   p.node.types = ["array"] ∧ p.node.ref = "" ∧ p.node.enum = none ∧ p.node.ext = none ∧ p.node.anyOf = [] ∧ p.node.allOf = [] ∧
